@@ -116,6 +116,9 @@ type prepared struct {
 	rms   []valid.RM
 	rmsCp []map[string]string
 	post  func() string // scalar calls: the collection handed in, compared with a rebuilt one
+	// the function table handed to StructForFns (one object per prepared call: a call that runs again hands the same table over)
+	fm      valid.Name2FnMap
+	fmNames []string
 }
 
 func (p *prepared) run() outcome {
@@ -200,6 +203,16 @@ func (c *Call) prepare() *prepared {
 			p.rmsCp = append(p.rmsCp, cp)
 		}
 	}
+	if s.Entry == "StructForFns" {
+		// the caller keeps its function table: built once, handed over as it is, looked at after the call
+		cp := *s
+		cp.fm = valid.Name2FnMap{}
+		for _, n := range s.CallFns {
+			cp.fm[n] = perCallFn(n)
+		}
+		p.fm, p.fmNames = cp.fm, append([]string(nil), s.CallFns...)
+		s = &cp
+	}
 	p.call = func() error { return s.callWith(src, unscoped, perType, names, decoys...) }
 	for _, n := range s.CallFns {
 		if n == "reenter" {
@@ -258,6 +271,20 @@ func (p *prepared) inputsUnchanged(c *Call) string {
 	if c.S == nil || c.H != nil {
 		return ""
 	}
+	if p.fm != nil {
+		// (a table the call has added names to is another table for the next call it is handed to)
+		have := make([]string, 0, len(p.fm))
+		for n := range p.fm {
+			have = append(have, n)
+		}
+		sort.Strings(have)
+		want := append([]string(nil), p.fmNames...)
+		sort.Strings(want)
+		want = dedupSorted(want)
+		if strings.Join(have, "\x00") != strings.Join(want, "\x00") {
+			return fmt.Sprintf("function table changed: the call was given functions for %q, afterwards the caller's table holds %q", want, have)
+		}
+	}
 	for i, rm := range p.rms {
 		if len(rm) != len(p.rmsCp[i]) {
 			return fmt.Sprintf("rule map changed: now %v, was %v", rm, p.rmsCp[i])
@@ -307,9 +334,12 @@ func (c *StructCase) callWith(src interface{}, unscoped valid.RM, perType map[st
 		}
 		return valid.ValidStructForMyValidFn(src, c.CallFns[0], perCallFn(c.CallFns[0]))
 	case "StructForFns":
-		fm := valid.Name2FnMap{}
-		for _, n := range c.CallFns {
-			fm[n] = perCallFn(n)
+		fm := c.fm
+		if fm == nil {
+			fm = valid.Name2FnMap{}
+			for _, n := range c.CallFns {
+				fm[n] = perCallFn(n)
+			}
 		}
 		if c.Tag != "" {
 			return valid.StructForFns(src, unscoped, fm, c.tagArg())
@@ -642,5 +672,15 @@ func sortedKeys(m map[string]string) []string {
 		out = append(out, k)
 	}
 	sort.Strings(out)
+	return out
+}
+
+func dedupSorted(a []string) []string {
+	out := a[:0]
+	for i, x := range a {
+		if i == 0 || x != a[i-1] {
+			out = append(out, x)
+		}
+	}
 	return out
 }
